@@ -64,4 +64,20 @@ theorem rne_core (n q r P half sh : Nat) (hn : n = q * P + r) (hr : r < P) (hP :
     rw [← hPs]
     refine ⟨by omega, by omega, by omega, by omega, fun h => by omega⟩
 
+/-- `Float.M__int__` truncates: every finite double, both code branches -/
+theorem floatToInt_trunc_aux (a : Nat) (neg : Bool) (m : Nat) (e : Int) (h : decodeF a = .fin neg m e) :
+    let mag : Nat := if e ≥ 0 then m * 2^e.toNat else m / 2^(-e).toNat
+    let v : Int := if neg then -(mag : Int) else (mag : Int)
+    floatToInt a = .ok (.int v) ∨ floatToInt a = .ok (.big v) := by
+  intro mag v
+  unfold floatToInt
+  rw [h]
+  by_cases he : e ≥ 0
+  · simp only [he, if_true, Nat.shiftLeft_eq, mag, v]
+    split
+    · first | exact Or.inl rfl | simp
+    · first | exact Or.inr rfl | simp
+  · simp only [he, if_false, if_true, mag, v]
+    first | exact Or.inl rfl | simp
+
 end GPy.C15
